@@ -172,14 +172,14 @@ def run(tier, seed):
     tie_broken = []
     if not tie_ok:
         tie_broken.append('translator failed closed: ' + tout[-600:])
-    if proof['ok']:
+    if proof['ok'] or proof['extra_ok']:
         f1 = common.run_cases(PID, 'pe', PRE, pecases, 'pecase_ok', shard=500)
         f2 = common.run_cases(PID, 'wd', PRE, wcases, 'wcase_ok', shard=500)
         if f1:
             tie_broken.append('ParserError text model differs on %d cases, first: %r' % (len(f1), pem[f1[0]]))
         if f2:
             tie_broken.append('get_uncrecognized_word model differs on %d cases, first: %r' % (len(f2), wcases[f2[0]]))
-    else:
+    if not proof['ok']:
         tie_broken.append('theorem file does not build (main skeleton no longer satisfies the guard, or a proof broke): %s' % proof['failed_at'])
     if proof['bad']:
         tie_broken.append('forbidden tokens: %r' % proof['bad'])
